@@ -25,6 +25,42 @@ CHECKS = {
             "Same lattice with the C04 predicates (monotone L/navg, log spacing and Kdes where a reference decision procedure says no clamp is active, nearest-integer navg with cap, even spreading, realised overlap, vectorised-vs-iterative bin count) plus every force_target_nf target in 100..400 for each scheduler.",
             "'no clamp active' decided by a reference procedure written from the documented targets; ties accepted either way",
             "bounded exhaustive configuration enumeration with per-state invariants", "DESIGN.md §4 C04"),
+    "C05": (E1,
+            "Full product of an analysis-configuration lattice (N, 4 schedulers, 6 window specifications incl. numpy/scipy Kaiser callables and a custom callable, 4 orders, Numba/NumPy (+CUDA-simulator) backends, 3 overlaps, 2 (Jdes,Kdes), bmin, Lmin, auto/cross, 2-3 records): every bin of every result is compared with a longdouble reference estimator evaluated at the plan's own f, L, D with an independently built window; every bin is re-requested as a single-bin analysis (L= and fres=); every pair of band edges from a stated set is checked against the in-band slice.",
+            "small N (16..64, thorough to 257); reference Kaiser window from the I0 definition with the published alpha(psll) polynomial",
+            "bounded exhaustive configuration/input enumeration against a reference model", "DESIGN.md §4 C05"),
+    "C06": (E1,
+            "Sinusoid calibration over the full lattice L=16..128 (every integer) x bin position x phase x amplitude x psll x fs x order x N through compute_single_bin; scaling and fs-relabelling laws on an analysis lattice with 4 scale factors on x, y, both and 5 relabelling factors.",
+            "tolerance 2r+r^2 (+rounding) with r the side-lobe level that C12 establishes; scaling laws to derived rounding tolerance",
+            "bounded exhaustive configuration/input enumeration with an analytic oracle", "DESIGN.md §4 C06"),
+    "C07": (E1,
+            "Full product N x record x 4 schedulers x Lmin x olap x window x order x backend x {3 gains, 3 delays}: Hxy = g and coh = 1 for pure gains; for delays Hxy equals the reference conj(X)Y/|X|^2 (which pins the conjugation on each backend separately) and, where the computed edge effect is small, the phase is negative and the magnitude ~1.",
+            "physical clause (b) evaluated only where the reference says the edge effect is small for that record",
+            "bounded exhaustive configuration/input enumeration against a reference model", "DESIGN.md §4 C07"),
+    "C08": (E1,
+            "Kernel level: L=1..12, every start set over {0,1,2}, all records over the alphabet for N<=4 and identifiable records beyond, the full 27-point trend-coefficient grid on x, y, both, orders 0..2, both modes, 3 backends: degree<=p leaves all five statistics unchanged within the rounding bound of the trended record, degree p+1 changes them by at least half of what the reference predicts. Analyzer level: the same on an analysis lattice.",
+            "rounding bound evaluated for the trended record; CUDA under the simulator for L in {3,8}",
+            "bounded exhaustive configuration/input enumeration, differential oracle (with/without trend) plus reference model", "DESIGN.md §4 C08"),
+    "C09": (E1,
+            "Every x over {-2,0,1}^6 (+2 fixed samples; ^8 in thorough) x 8 partner constructions x 3 plans x 4 orders x 2 windows x 2 backends: coherence range, Schwarz inequality, coh=1 for K=1/dependent channels, swap symmetry, auto-vs-pair, GyyCx+GyyRx=Gyy, GyySx=Gyy(1-coh) on every bin.",
+            "identities demanded to 1e-9 relative plus derived rounding tolerance; bins below 1e6x rounding are excluded from equalities",
+            "bounded exhaustive input enumeration with algebraic invariants", "DESIGN.md §4 C09"),
+    "C10": (E1,
+            "Directly constructed results over the full grid coherence(11) x n(8) x |XX|(3) x |YY|(3) x arg XY(4) x fs(2) x S2(2): every deviation and normalised error equals the reference Bendat-Piersol expression, deviation = estimate x error, dev*sqrt(n) constant, phase-error bounds and limit, degree form; analyzer results use the number of segment starts. The ensemble sentence is not claimed.",
+            "statistical last sentence of the property is outside the family (DESIGN.md §6)",
+            "bounded exhaustive grid enumeration against reference formulas", "DESIGN.md §4 C10"),
+    "C11": (E1,
+            "Analysis lattice (3 N x 4 schedulers x 3 windows x 4 orders x 2 backends x 3 overlaps x 3 (Jdes,Kdes) x auto/cross x 2 records): per bin XY_M2 equals the reference population variance of the per-segment cross products, var = M2/K, dev = sqrt, spectral units factor 2/(fs sum w^2), zero for single segments, non-negative, inapplicable one None; constructed-result grid.",
+            "statistical last sentence not claimed (DESIGN.md §6)",
+            "bounded exhaustive configuration enumeration against a reference model", "DESIGN.md §4 C11"),
+    "C12": (E1,
+            "P in 40..200 step 20 x L in 64..256 (step 8 quick, every integer + 512/1024/4096 thorough) x 3 line positions x 2 phases x every quarter-bin analysis offset beyond the main lobe up to DC and Nyquist, through compute_single_bin: single complex line via the cos/sin channel pair (threshold P-1 dB) and the real sinusoid (two lines, P-7.5 dB).",
+            "offsets on a quarter-bin grid; float64 dynamic range margin reported per P",
+            "bounded exhaustive configuration enumeration with an analytic threshold", "DESIGN.md §4 C12"),
+    "C13": (E1,
+            "N=8: all 255 position subsets x 4 non-finite kinds x channel choice x 8 containers (+5 one-channel containers): result equals the zero-filled record's and the caller's bytes are unchanged; containers x 5 dtypes x shapes give the float64 result; every x in {-2,0,1}^6(+2) x 10 partners x scales 1e-150/1/1e150 x 4 orders x auto/cross x full/single-bin: all densities, coherences, transfer functions finite, error bars finite where coh>0.",
+            "magnitude alphabet keeps the densities representable; cf_db=-inf at cf=0 is by definition",
+            "bounded exhaustive input enumeration with differential and finiteness oracles", "DESIGN.md §4 C13"),
 }
 
 NOT_YET = "check under construction in this round; not claimed yet"
